@@ -37,6 +37,7 @@ var (
 		"--color=never",
 		"--src-prefix=a/", "--dst-prefix=b/", // the parser relies on the default prefixes (diff.noprefix, diff.mnemonicPrefix)
 		"--text",            // pointers are text even when the path is marked binary or -diff
+		"--root",            // a root commit adds its files, whatever log.showRoot says
 		"-G", "oid sha256:", // only diffs which include an lfs file SHA change
 		"-p",                             // include diff so we can read the SHA
 		"-U12",                           // Make sure diff context is always big enough to support 10 extension lines to get whole pointer
